@@ -25,25 +25,25 @@ import (
 // "Handle invoked exactly once per item" (Reset.unordered: handler goroutines log their entries in any order).
 
 type srun struct {
-	cfg     Config
-	ver     int
-	ch      map[int]chan int
-	closed  map[int]bool
-	next    map[int]int
-	mu      sync.Mutex
-	log     []any
-	running []int // items inside Handle, in entry order
-	gates   map[int]chan struct{}
-	ctx     context.Context
-	cancel  context.CancelFunc
-	errCh   <-chan error
-	stopFn  func()
-	graceFn func()
-	stopReq, cancelReq, graceReq bool
-	stopRet, graceRet            atomic.Bool
+	cfg                                     Config
+	ver                                     int
+	ch                                      map[int]chan int
+	closed                                  map[int]bool
+	next                                    map[int]int
+	mu                                      sync.Mutex
+	log                                     []any
+	running                                 []int // items inside Handle, in entry order
+	gates                                   map[int]chan struct{}
+	ctx                                     context.Context
+	cancel                                  context.CancelFunc
+	errCh                                   <-chan error
+	stopFn                                  func()
+	graceFn                                 func()
+	stopReq, cancelReq, graceReq            bool
+	stopRet, graceRet                       atomic.Bool
 	stopRetLogged, graceRetLogged, ecLogged bool
-	sawErrBad bool
-	rounds    atomic.Int64 // rounds of the inner discipline's scheduler (counting hook)
+	sawErrBad                               bool
+	rounds                                  atomic.Int64 // rounds of the inner discipline's scheduler (counting hook)
 }
 
 func (r *srun) emit(o any) {
@@ -156,10 +156,7 @@ func (r *srun) observe() {
 				r.emit(obs{E: "EC"})
 				break
 			}
-			note := "nil"
-			if err != nil {
-				note = err.Error()
-			}
+			note := errNote(err)
 			r.emit(obs{E: "EV", Note: note})
 			continue
 		default:
